@@ -129,8 +129,8 @@ def ocode(x):
 def generate(res):
     isrc = C.read(os.path.join(C.REPO, "src", "interface.rs"))
     psrc = C.read(os.path.join(C.REPO, "src", "prefs.rs"))
-    float_names = G.parse_float_names(isrc)
-    use_decimal = G.parse_use_decimal(psrc)
+    float_names = C.translate(res, "c12-float", "float-valued preference names of interface.rs", lambda: G.parse_float_names(isrc))
+    use_decimal = C.translate(res, "c12-decimal", "USE_DECIMAL_SEPARATOR of prefs.rs", lambda: G.parse_use_decimal(psrc))
     ok, log = C.build_harness()
     if not ok:
         raise RuntimeError("harness build failed: " + log)
@@ -142,6 +142,14 @@ def generate(res):
     rng = random.Random(seed * 2741 + 12)
     nh = 120 if tier == "quick" else 1200
     histories = [gen_history(rng, dump, float_names, rng.randint(2, 18)) for _ in range(nh)]
+    # the derived separator preferences: every explicit DecimalSeparator in every language state (the shipped Language is
+    # Auto), followed by language changes
+    for lang0 in [None, "en", "sv", "de-ch", "Auto"]:
+        for ds in [",", ".", "Auto", "Custom", ";"]:
+            for lang1 in [None, "en", "fi", "es-mx", "Auto"]:
+                h = ([("set", "Language", lang0)] if lang0 else []) + [("set", "DecimalSeparator", ds)] + ([("set", "Language", lang1)] if lang1 else []) + \
+                    [("other",), ("set", "DecimalSeparator", rng.choice([",", ".", "Auto"]))]
+                histories.append(h)
     out = run_histories(histories)
     items, skipped = [], 0
     obs = []
@@ -262,6 +270,19 @@ def property_oracle(res, dump, float_names, obs):
         elif rs[5] != rs[7] or rs[3] != rs[8] or rs[4] != rs[9] or C.norm_ids(json.dumps(rs[3:5])) != C.norm_ids(json.dumps(rs[11:13])):
             res.violation("rejected set_preference(%r, %r) changes preferences or outputs" % (n, v), rep)
             nv += 1
+    # an explicit decimal mark takes effect whatever the language preference is (the shipped value is Auto): the derived
+    # preference reads back as the mark and a number written with it is one number
+    for lang in (None, "Auto", "en", "sv"):
+        for mark, num, other in ((",", "3,14", "."), (".", "3.14", ",")):
+            ops = ([["set_preference", "Language", lang]] if lang else []) + [["set_preference", "DecimalSeparator", mark], ["get_preference", "DecimalSeparators"],
+                                                                            ["set_mathml", "<math><mn>%s</mn><mo>+</mo><mn>1</mn></math>" % num], ["get_spoken_text"]]
+            rs = C.one_session(ops)["res"]
+            res.add_case(("decimal-mark", lang, mark), nontrivial=True)
+            got = rs[-3].get("ok")
+            if "ok" in rs[-4] and got != mark:
+                res.violation("DecimalSeparator=%r (Language %s) is accepted but the derived DecimalSeparators reads back %r" % (mark, lang or "as shipped", got),
+                              {"kind": "decimal_mark", "ops": ops, "results": rs})
+                nv += 1
     return nv
 
 
@@ -296,5 +317,10 @@ def replay(path):
         r = C.one_session([["set_preference", rep["name"], rep["value"]]])["res"][0]
         print(r)
         return 0 if "err" in r else 1
+    if rep.get("kind") == "decimal_mark":
+        rs = C.one_session(rep["ops"])["res"]
+        mark = [o for o in rep["ops"] if o[1] == "DecimalSeparator"][0][2]
+        print(rs[-3], rs[-1])
+        return 0 if rs[-3].get("ok") == mark else 1
     print("replay names a broken obligation, not an input:", rep.get("what"))
     return 1
